@@ -288,6 +288,12 @@ static bool unary(const std::string& f, half h, Out& o)
     U1("cbrt", cbrt(h)) U1("sin", sin(h)) U1("cos", cos(h)) U1("tan", tan(h)) U1("asin", asin(h)) U1("acos", acos(h)) U1("atan", atan(h))
     U1("sinh", sinh(h)) U1("cosh", cosh(h)) U1("tanh", tanh(h)) U1("asinh", asinh(h)) U1("acosh", acosh(h)) U1("atanh", atanh(h))
     U1("erf", erf(h)) U1("erfc", erfc(h)) U1("lgamma", lgamma(h)) U1("tgamma", tgamma(h))
+    if (f == "sincos_routes")       // both outputs of the combined entry point, and the stand-alone functions at the same argument
+    {
+        half s = mk(0x1234), c = mk(0x1234); sincos(h, &s, &c);
+        o.r[0].push_back(bits(s)); o.r[1].push_back(bits(c)); o.r[2].push_back(bits(sin(h))); o.r[3].push_back(bits(cos(h)));
+        return true;
+    }
     if (f == "sincos") { half s = mk(0x1234), c = mk(0x1234); sincos(h, &s, &c); o.r[0].push_back(bits(s)); o.r[1].push_back(bits(c)); return true; }
 #undef U1
 #undef UB
